@@ -145,7 +145,12 @@ pub struct Violation {
 
 impl Violation {
     pub fn new(sig: impl Into<String>, detail: impl Into<String>, rec: &CaseRec) -> Violation {
-        Violation { sig: sig.into(), detail: detail.into(), rec: rec.clone() }
+        let mut rec = rec.clone();
+        if rec.backend == 0 {
+            // a backend forced for the whole pass (hook H2) is part of the case
+            rec.backend = crate::real::BACKEND.load(Ordering::Relaxed);
+        }
+        Violation { sig: sig.into(), detail: detail.into(), rec }
     }
 }
 
@@ -337,6 +342,9 @@ pub struct Runner {
     pub notes: Mutex<Vec<String>>,
     pub exhaustive: AtomicBool,
     pub any_random: AtomicBool,
+    /// > 1 during an alternate-backend pass: enumerations evaluate a 1/stride sample and
+    /// random phases generate 1/stride of their cases
+    pub stride: AtomicU64,
 }
 
 pub fn env_u64(name: &str, default: u64) -> u64 {
@@ -380,6 +388,7 @@ impl Runner {
             notes: Mutex::new(vec![]),
             exhaustive: AtomicBool::new(true),
             any_random: AtomicBool::new(false),
+            stride: AtomicU64::new(1),
         }
     }
 
@@ -391,7 +400,12 @@ impl Runner {
     pub fn amount(&self, quick: u64, thorough: u64) -> u64 {
         let scale = env_u64("VERIF_SCALE_PCT", 100);
         let base = if self.quick() { quick } else { thorough };
-        (base * scale / 100).max(1)
+        (base * scale / 100 / self.stride.load(Ordering::Relaxed).max(1)).max(1)
+    }
+
+    /// true while an alternate-backend pass (a subsampled re-run under a forced backend) runs
+    pub fn alt_pass(&self) -> bool {
+        self.stride.load(Ordering::Relaxed) > 1
     }
 
     pub fn stopped(&self) -> bool {
@@ -485,6 +499,13 @@ impl Runner {
     }
 
     pub fn phase_done(&self, name: &str, cases: u64, exhaustive: bool, t0: Instant) {
+        let stride = self.stride.load(Ordering::Relaxed);
+        let name = if stride > 1 {
+            format!("[backend {} forced, 1/{} sample] {}", crate::real::backend_name(crate::real::BACKEND.load(Ordering::Relaxed)), stride, name)
+        } else {
+            name.to_string()
+        };
+        let exhaustive = exhaustive && stride == 1;
         self.stats.phases.lock().unwrap().push(json!({
             "phase": name, "cases": cases, "exhaustive": exhaustive,
             "wall_s": (t0.elapsed().as_millis() as f64) / 1000.0,
@@ -520,6 +541,7 @@ impl Runner {
             return;
         }
         let next = AtomicU64::new(0);
+        let stride = self.stride.load(Ordering::Relaxed);
         let chunk = (total / (self.threads as u64 * 64)).clamp(1, 4096);
         std::thread::scope(|s| {
             for tid in 0..self.threads {
@@ -538,6 +560,9 @@ impl Runner {
                         }
                         let hi = (lo + chunk).min(total);
                         for idx in lo..hi {
+                            if stride > 1 && mix(idx ^ 0xa17b_ac4e) % stride != 0 {
+                                continue;
+                            }
                             if let Err(v) = f(&mut ctx, &mut local, idx) {
                                 if self.report(v) {
                                     break 'outer;
@@ -549,7 +574,7 @@ impl Runner {
                 });
             }
         });
-        self.phase_done(name, total, true, t0);
+        self.phase_done(name, total / stride, true, t0);
     }
 
     /// Random search driven by proptest: choice bytes are generated (and shrunk) by
